@@ -77,6 +77,10 @@ pub fn run_engine<E: Engine>(e: E) -> ! {
     if let Some(o) = &args.only {
         shapes.retain(|s| s.id().contains(o.as_str()));
     }
+    // the systematic family of field-class pairs / triples is a layout matter: swept by layout and emplace only
+    if matches!(E::NAME, "hist" | "decode") {
+        shapes.retain(|s| !s.id().ends_with(";sys"));
+    }
     shapes.sort_by_key(|s| std::cmp::Reverse(e.cost(*s)));
     let rep = Report::new(E::NAME, &args.tier);
     let next = AtomicUsize::new(0);
